@@ -334,6 +334,27 @@ def check_C05(env):
                     raise Failure('C05', 'n_jobs=%r backend=%r changes the results of %s/%s' % (nj, be, lp[0], nbh and nbh[0]),
                                   case, got, want, MODULE_OF.get((nbh or lp)[0]))
             yield base
+    if env.get('tier') == 'thorough':
+        # the ambient joblib configuration must not matter either: training under a process backend (thorough only:
+        # starting worker processes is slow)
+        import joblib
+        for lp, nbh in [(CF_OUT[1], NBH_OTHER[0]), (CF_OUT[0], NBH_EXACT[0])]:
+            if not in_focus(env, lp, nbh):
+                continue
+            h = history_for(rng, lp, nbh, 0)[1]
+            base = {'arms': ARMS, 'lp': lp, 'np': nbh, 'calls': h, 'seed': 5}
+            ref = build(base)
+            drive(ref, h)
+            want = ref.predict_expectations(GRID_QUERIES)
+            case = dict(base, n_jobs=2, ambient_backend='loky')
+            m = build(case)
+            with joblib.parallel_config(backend='loky'):
+                drive(m, h)
+                got = m.predict_expectations(GRID_QUERIES)
+            if not same_result(got, want, 1e-12):
+                raise Failure('C05', 'training / predicting with n_jobs=2 under joblib.parallel_config(backend="loky") changes '
+                              'the results of %s/%s' % (lp[0], nbh[0]), case, got, want, MODULE_OF[nbh[0]])
+            yield case
 
 
 # =========================================================================================== C06
